@@ -7,7 +7,7 @@ from .. import check as CK
 from .. import pool, rel, tlc
 from . import penvec, penvec_dom
 
-DOM_CLAUSES = {"C07": {"finite", "prox_min", "prox_kkt", "prox_feasible"}, "C08": {"dist_eq"}}
+DOM_CLAUSES = {"C07": {"finite", "prox_min", "prox_kkt", "prox_feasible"}, "C08": {"dist_eq", "fixpoint_fn_eq", "fixpoint_fn_zero_iff", "value_eq"}}
 
 
 def oracle_gate(ck, seed):
